@@ -538,7 +538,7 @@ mutual
 expansions of its term groups are complete -/
 theorem evalM_plan : ∀ (q : Q) (sc : Bool),
     (∀ g ∈ (plan c sc q).groups, GroupOK c segs g) →
-      evalM c segs s o (plan c sc q) = Spec.matchesQ c d sc q
+      evalM c segs s o (plan c sc q) = Spec.matchesQ c false d sc q
   | .matchAll, sc, _ => by simp [plan, evalM, Spec.matchesQ]
   | .term f v, sc, h => by
     simp only [plan, evalM, Spec.matchesQ]
@@ -633,9 +633,16 @@ theorem evalM_plan : ∀ (q : Q) (sc : Bool),
     simp only [plan, evalM, Spec.matchesQ, evalAll, evalAny, evalCount]
     rw [docPasses_eq hd]
     simp [Flt.passesAll, defaultMinShould]
+  | .functionScore q fns mode maxB minS, sc, h => by
+    simp only [plan, Spec.matchesQ, Bool.false_and, Bool.not_false, Bool.and_true]
+    exact evalM_plan q sc (by simpa [plan] using h)
+  | .scriptScore q guard, sc, h => by
+    simp only [plan, Spec.matchesQ, Bool.false_and, Bool.not_false, Bool.and_true]
+    exact evalM_plan q sc (by simpa [plan] using h)
+  | .rankFeature f, sc, _ => by simp [plan, evalM, Spec.matchesQ]
 theorem evalAll_planList : ∀ (qs : List Q) (sc : Bool),
     (∀ g ∈ Matcher.groupsList (planList c sc qs), GroupOK c segs g) →
-      evalAll c segs s o (planList c sc qs) = Spec.matchesAll c d sc qs
+      evalAll c segs s o (planList c sc qs) = Spec.matchesAll c false d sc qs
   | [], _, _ => by simp [planList, evalAll, Spec.matchesAll]
   | q :: qs, sc, h => by
     simp only [planList, Matcher.groupsList, List.mem_append] at h
@@ -643,7 +650,7 @@ theorem evalAll_planList : ∀ (qs : List Q) (sc : Bool),
     rw [evalM_plan q sc (fun g hg => h g (Or.inl hg)), evalAll_planList qs sc (fun g hg => h g (Or.inr hg))]
 theorem evalAny_planList : ∀ (qs : List Q) (sc : Bool),
     (∀ g ∈ Matcher.groupsList (planList c sc qs), GroupOK c segs g) →
-      evalAny c segs s o (planList c sc qs) = Spec.matchesAny c d sc qs
+      evalAny c segs s o (planList c sc qs) = Spec.matchesAny c false d sc qs
   | [], _, _ => by simp [planList, evalAny, Spec.matchesAny]
   | q :: qs, sc, h => by
     simp only [planList, Matcher.groupsList, List.mem_append] at h
@@ -651,7 +658,7 @@ theorem evalAny_planList : ∀ (qs : List Q) (sc : Bool),
     rw [evalM_plan q sc (fun g hg => h g (Or.inl hg)), evalAny_planList qs sc (fun g hg => h g (Or.inr hg))]
 theorem evalCount_planList : ∀ (qs : List Q) (sc : Bool),
     (∀ g ∈ Matcher.groupsList (planList c sc qs), GroupOK c segs g) →
-      evalCount c segs s o (planList c sc qs) = Spec.matchesCount c d sc qs
+      evalCount c segs s o (planList c sc qs) = Spec.matchesCount c false d sc qs
   | [], _, _ => by simp [planList, evalCount, Spec.matchesCount]
   | q :: qs, sc, h => by
     simp only [planList, Matcher.groupsList, List.mem_append] at h
@@ -951,6 +958,15 @@ theorem forces_hit : ∀ (q : Q) (sc : Bool), forces sc q = true →
       exact ScoredHit.mono (fun g hg => List.mem_append_left _ (List.mem_append_right _ hg))
         (forcesAll_count should sc hall hc)
   | .constantScore _, _, h, _ => by simp [forces] at h
+  | .functionScore q _ _ _ _, sc, h, he => by
+    simp only [forces] at h
+    simp only [plan] at he ⊢
+    exact forces_hit q sc h he
+  | .scriptScore q _, sc, h, he => by
+    simp only [forces] at h
+    simp only [plan] at he ⊢
+    exact forces_hit q sc h he
+  | .rankFeature _, _, h, _ => by simp [forces] at h
 theorem forcesAll_any : ∀ (qs : List Q) (sc : Bool), forcesAll sc qs = true →
     evalAny c segs s o (planList c sc qs) = true → ScoredHit c segs s o (Matcher.groupsList (planList c sc qs))
   | [], _, _, he => by simp [planList, evalAny] at he
@@ -1000,5 +1016,203 @@ theorem hasQualified_of_scoredHit {m : Matcher} (h : ScoredHit c segs s o m.grou
   exact ⟨g, List.mem_filter.mpr ⟨hg, hsc⟩, hk⟩
 
 end Forces
+
+/-! ## function_score / script_score: drops -/
+
+mutual
+/-- without function_score / script_score clauses the documented reading and the matcher-only
+reading coincide -/
+theorem plain_matchesQ (c : Ctx) (d : ADoc) : ∀ (q : Q) (sc : Bool), q.plain = true →
+    Spec.matchesQ c true d sc q = Spec.matchesQ c false d sc q
+  | .matchAll, _, _ => by simp only [Spec.matchesQ]
+  | .term _ _, _, _ => by simp only [Spec.matchesQ]
+  | .pfx _ _ _, _, _ => by simp only [Spec.matchesQ]
+  | .wildcard _ _ _, _, _ => by simp only [Spec.matchesQ]
+  | .regex _ _ _, _, _ => by simp only [Spec.matchesQ]
+  | .phrase _ _ _, _, _ => by simp only [Spec.matchesQ]
+  | .queryString _ _, _, _ => by simp only [Spec.matchesQ]
+  | .multiMatch _ _ _ _ _, _, _ => by simp only [Spec.matchesQ]
+  | .constantScore _, _, _ => by simp only [Spec.matchesQ]
+  | .rankFeature _, _, _ => by simp only [Spec.matchesQ]
+  | .disMax qs, sc, h => by
+    simp only [Spec.matchesQ]
+    exact plain_matchesAny c d qs sc (by simpa [Q.plain] using h)
+  | .bool must should mustNot filter msm, sc, h => by
+    simp only [Q.plain, Bool.and_eq_true] at h
+    simp only [Spec.matchesQ]
+    rw [plain_matchesAll c d must sc h.1.1, plain_matchesAny c d mustNot false h.2,
+      plain_matchesCount c d should sc h.1.2]
+  | .functionScore _ _ _ _ _, _, h => by simp [Q.plain] at h
+  | .scriptScore _ _, _, h => by simp [Q.plain] at h
+theorem plain_matchesAll (c : Ctx) (d : ADoc) : ∀ (qs : List Q) (sc : Bool), Q.plainAll qs = true →
+    Spec.matchesAll c true d sc qs = Spec.matchesAll c false d sc qs
+  | [], _, _ => by simp only [Spec.matchesAll]
+  | q :: qs, sc, h => by
+    simp only [Q.plainAll, Bool.and_eq_true] at h
+    simp only [Spec.matchesAll]
+    rw [plain_matchesQ c d q sc h.1, plain_matchesAll c d qs sc h.2]
+theorem plain_matchesAny (c : Ctx) (d : ADoc) : ∀ (qs : List Q) (sc : Bool), Q.plainAll qs = true →
+    Spec.matchesAny c true d sc qs = Spec.matchesAny c false d sc qs
+  | [], _, _ => by simp only [Spec.matchesAny]
+  | q :: qs, sc, h => by
+    simp only [Q.plainAll, Bool.and_eq_true] at h
+    simp only [Spec.matchesAny]
+    rw [plain_matchesQ c d q sc h.1, plain_matchesAny c d qs sc h.2]
+theorem plain_matchesCount (c : Ctx) (d : ADoc) : ∀ (qs : List Q) (sc : Bool), Q.plainAll qs = true →
+    Spec.matchesCount c true d sc qs = Spec.matchesCount c false d sc qs
+  | [], _, _ => by simp only [Spec.matchesCount]
+  | q :: qs, sc, h => by
+    simp only [Q.plainAll, Bool.and_eq_true] at h
+    simp only [Spec.matchesCount]
+    rw [plain_matchesQ c d q sc h.1, plain_matchesCount c d qs sc h.2]
+end
+
+mutual
+/-- a score tree without function_score / script_score nodes -/
+def SNode.safe : SNode → Bool
+  | .sum cs => SNode.safeAll cs
+  | .disMax cs => SNode.safeAll cs
+  | .fnScore _ _ _ _ _ _ => false
+  | .script _ _ _ => false
+  | _ => true
+def SNode.safeAll : List SNode → Bool
+  | [] => true
+  | n :: ns => n.safe && SNode.safeAll ns
+end
+
+mutual
+/-- such a tree always has a score: nothing is dropped -/
+theorem safe_not_dropped (c : Ctx) (segs : List Seg) (s : Seg) (o : Nat) (d : ADoc) :
+    ∀ (n : SNode), n.safe = true → dropped c segs s o d n = false
+  | .empty, _ => by simp only [dropped]
+  | .expr, _ => by simp only [dropped]
+  | .constant, _ => by simp only [dropped]
+  | .rank, _ => by simp only [dropped]
+  | .sum cs, h => by
+    simp only [SNode.safe] at h
+    simp only [dropped]
+    cases cs with
+    | nil => rfl
+    | cons n ns => rw [safeAll_not_droppedAll c segs s o d n ns h]; simp
+  | .disMax cs, h => by
+    simp only [SNode.safe] at h
+    simp only [dropped]
+    cases cs with
+    | nil => rfl
+    | cons n ns => rw [safeAll_not_droppedAll c segs s o d n ns h]; simp
+  | .fnScore _ _ _ _ _ _, h => by simp [SNode.safe] at h
+  | .script _ _ _, h => by simp [SNode.safe] at h
+theorem safeAll_not_droppedAll (c : Ctx) (segs : List Seg) (s : Seg) (o : Nat) (d : ADoc) :
+    ∀ (n : SNode) (ns : List SNode), SNode.safeAll (n :: ns) = true →
+      droppedAll c segs s o d (n :: ns) = false
+  | n, ns, h => by
+    simp only [SNode.safeAll, Bool.and_eq_true] at h
+    simp only [droppedAll]
+    rw [safe_not_dropped c segs s o d n h.1]
+    rfl
+end
+
+theorem safeAll_append : ∀ (a b : List SNode),
+    SNode.safeAll (a ++ b) = (SNode.safeAll a && SNode.safeAll b)
+  | [], b => by simp [SNode.safeAll]
+  | n :: a, b => by simp [SNode.safeAll, safeAll_append a b, Bool.and_assoc]
+
+theorem collapse_safe (mk : List SNode → SNode) (hmk : ∀ ns, (mk ns).safe = SNode.safeAll ns)
+    (ns : List SNode) (h : SNode.safeAll ns = true) : (collapse mk ns).safe = true := by
+  match ns, h with
+  | [], _ => simp [collapse, SNode.safe]
+  | [n], h => simpa [collapse, SNode.safeAll] using h
+  | a :: b :: r, h => simp only [collapse]; rw [hmk]; exact h
+
+theorem nonEmpty_safe (n : SNode) (h : n.safe = true) :
+    SNode.safeAll n.nonEmpty = true := by
+  cases n <;> simp_all [SNode.safeAll, SNode.nonEmpty]
+
+mutual
+theorem plain_scoreTree_safe (c : Ctx) : ∀ (q : Q) (sc : Bool), q.plain = true →
+    (scoreTree c sc q).safe = true
+  | .matchAll, _, _ => by simp [scoreTree, SNode.safe]
+  | .term _ _, sc, _ => by cases sc <;> simp [scoreTree, SNode.safe]
+  | .pfx _ _ _, sc, _ => by cases sc <;> simp [scoreTree, SNode.safe]
+  | .wildcard _ _ _, sc, _ => by cases sc <;> simp [scoreTree, SNode.safe]
+  | .regex _ _ _, sc, _ => by cases sc <;> simp [scoreTree, SNode.safe]
+  | .phrase _ _ _, _, _ => by simp [scoreTree, SNode.safe]
+  | .queryString q _, sc, _ => by
+    simp only [scoreTree]; split <;> simp [SNode.safe]
+  | .multiMatch _ fields ty _ _, sc, _ => by
+    simp only [scoreTree]
+    cases ty <;> simp only <;> split <;> simp [SNode.safe]
+  | .constantScore _, _, _ => by simp [scoreTree, SNode.safe]
+  | .rankFeature _, _, _ => by simp [scoreTree, SNode.safe]
+  | .disMax qs, sc, h => by
+    simp only [scoreTree]
+    exact collapse_safe _ (fun ns => by simp [SNode.safe]) _
+      (plain_scoreNodes_safe c qs sc (by simpa [Q.plain] using h))
+  | .bool must should mustNot _ _, sc, h => by
+    simp only [Q.plain, Bool.and_eq_true] at h
+    simp only [scoreTree]
+    apply collapse_safe _ (fun ns => by simp [SNode.safe])
+    rw [safeAll_append, safeAll_append, plain_scoreNodes_safe c must sc h.1.1,
+      plain_scoreNodes_safe c should sc h.1.2, plain_scoreNodes_safe c mustNot false h.2]
+    rfl
+  | .functionScore _ _ _ _ _, _, h => by simp [Q.plain] at h
+  | .scriptScore _ _, _, h => by simp [Q.plain] at h
+theorem plain_scoreNodes_safe (c : Ctx) : ∀ (qs : List Q) (sc : Bool), Q.plainAll qs = true →
+    SNode.safeAll (scoreNodes c sc qs) = true
+  | [], _, _ => by simp [scoreNodes, SNode.safeAll]
+  | q :: qs, sc, h => by
+    simp only [Q.plainAll, Bool.and_eq_true] at h
+    simp only [scoreNodes]
+    rw [safeAll_append, nonEmpty_safe _ (plain_scoreTree_safe c q sc h.1),
+      plain_scoreNodes_safe c qs sc h.2]
+    rfl
+end
+
+section RootChain
+variable (c : Ctx) {segs : List Seg} {s : Seg} (hs : s ∈ segs) {o : Nat} {d : ADoc}
+  (hd : s.docs[o]? = some d)
+include hs hd
+
+/-- matcher accepts and the score tree yields a score -/
+theorem plain_accept (q : Q) (hp : q.plain = true)
+    (hg : ∀ g ∈ (plan c true q).groups, GroupOK c segs g) :
+    (evalM c segs s o (plan c true q) && !(dropped c segs s o d (scoreTree c true q))) =
+      Spec.matchesQ c true d true q := by
+  rw [safe_not_dropped c segs s o d _ (plain_scoreTree_safe c q true hp),
+    evalM_plan c hs hd q true hg, plain_matchesQ c d q true hp]
+  simp
+
+/-- **function_score / script_score at the root**: "matcher accepts and the score tree yields a
+score" is the documented reading (inner query satisfied, `min_score` reached, script has a value) -/
+theorem rootChain_accept : ∀ (q : Q), q.rootChain = true →
+    (∀ g ∈ (plan c true q).groups, GroupOK c segs g) →
+    (evalM c segs s o (plan c true q) && !(dropped c segs s o d (scoreTree c true q))) =
+      Spec.matchesQ c true d true q
+  | .functionScore q fns mode maxB minS, h, hg => by
+    have ih := rootChain_accept q (by simpa [Q.rootChain] using h) (by simpa [plan] using hg)
+    simp only [plan, scoreTree, dropped, Spec.matchesQ, Bool.true_and]
+    rw [← ih]
+    cases evalM c segs s o (plan c true q) <;> cases dropped c segs s o d (scoreTree c true q) <;>
+      cases fnBelow d fns mode maxB minS <;> rfl
+  | .scriptScore q guard, h, hg => by
+    have ih := rootChain_accept q (by simpa [Q.rootChain] using h) (by simpa [plan] using hg)
+    simp only [plan, scoreTree, dropped, Spec.matchesQ, Bool.true_and]
+    rw [← ih]
+    cases evalM c segs s o (plan c true q) <;> cases dropped c segs s o d (scoreTree c true q) <;>
+      cases guardHit d guard <;> rfl
+  | .matchAll, h, hg => plain_accept c hs hd _ (by simpa [Q.rootChain] using h) hg
+  | .term _ _, h, hg => plain_accept c hs hd _ (by simpa [Q.rootChain] using h) hg
+  | .pfx _ _ _, h, hg => plain_accept c hs hd _ (by simpa [Q.rootChain] using h) hg
+  | .wildcard _ _ _, h, hg => plain_accept c hs hd _ (by simpa [Q.rootChain] using h) hg
+  | .regex _ _ _, h, hg => plain_accept c hs hd _ (by simpa [Q.rootChain] using h) hg
+  | .phrase _ _ _, h, hg => plain_accept c hs hd _ (by simpa [Q.rootChain] using h) hg
+  | .queryString _ _, h, hg => plain_accept c hs hd _ (by simpa [Q.rootChain] using h) hg
+  | .multiMatch _ _ _ _ _, h, hg => plain_accept c hs hd _ (by simpa [Q.rootChain] using h) hg
+  | .disMax _, h, hg => plain_accept c hs hd _ (by simpa [Q.rootChain] using h) hg
+  | .bool _ _ _ _ _, h, hg => plain_accept c hs hd _ (by simpa [Q.rootChain] using h) hg
+  | .constantScore _, h, hg => plain_accept c hs hd _ (by simpa [Q.rootChain] using h) hg
+  | .rankFeature _, h, hg => plain_accept c hs hd _ (by simpa [Q.rootChain] using h) hg
+
+end RootChain
 
 end SL.Query
